@@ -14,7 +14,7 @@ def main():
     shutil.copyfile(os.path.join(D.REPO, "go.sum"), os.path.join(D.HARNESS, "go.sum"))
     # build the commands of the registered checks (others may be work in progress)
     claimed = claimed_props()
-    cmds = ["annotate"] + [c.lower() for c in claimed if os.path.isdir(os.path.join(D.HARNESS, "cmd", c.lower()))]
+    cmds = ["annotate", "machine"] + [c.lower() for c in claimed if os.path.isdir(os.path.join(D.HARNESS, "cmd", c.lower()))]
     for c in cmds:
         p = subprocess.run(["go", "build", "-tags", "verif", "-o", os.devnull, "./cmd/" + c], cwd=D.HARNESS, env=D.GOENV, capture_output=True, text=True)
         if p.returncode != 0:
